@@ -248,7 +248,8 @@ def run(ctx):
     from . import C20
     C20.r3_flush_handover(ctx, 'C01.R7')  # clearing one stream's queue never discards another stream's in-flight DATA tail
     from . import C12
-    C12.r7_payload_range(ctx, 'C01.R9')  # HEADERS / CONTINUATION / DATA payloads are cut at the right offset on every path
+    C12.r7_payload_range(ctx, 'C01.R9')
+    C12.r10_delegation(ctx, 'C01.R10')  # HEADERS / CONTINUATION / DATA payloads are cut at the right offset on every path
     from .. import tstate
     r8 = ctx.rule('C01.R8', 'TSTATE', 'end-of-stream is reported only when END_STREAM was received: RST_STREAM yields ErrorAfterEndStream iff END_STREAM had been seen, whatever its code (30 rows)')
     tstate.recv_reset_rows(r8, ctx.facts)
